@@ -5,10 +5,12 @@
      overruns its buffer when the total reaches 2^32; wf_module excludes that).
    - deserialize0 (= nvm_deserialize of the pinned tree; [deserialize] adds the optional trailing-bytes check, see below):
      size >= 32, then magic / version / section_count <= 16, THEN the CRC, then the directory bound,
-     then the sections one by one.  Every comparison the C makes in uint32_t is made modulo 2^32 here ([fits]);
-     when the wrapped comparison lets through a range that really ends outside the buffer the outcome is [Crash]
-     (the C would read out of bounds; refined by property C13).  Strings go through add_string (de-duplication)
-     as in the C.  Entry loops stop silently at the first entry that does not fit (the C `break`s).
+     then the sections one by one.  The section bound and the string-length bound are compared without wrap-around
+     (repair b493bae); the loop heads `pos + K <= sec_size` still add in uint32_t and are made modulo 2^32 here ([fits]);
+     when such a wrapped comparison lets through a range that really ends outside the section the outcome is [Crash]
+     (needs a section of >= 2^32-18 bytes; refined by property C13).  Strings go through add_string (de-duplication)
+     as in the C.  A table section must consist of whole entries (repair 919fdcf): an entry that overruns its section, or
+     bytes left over after the last entry, set `malformed` and the file is refused ([PBad]).
    - header magic/version are not fields of the model module: nvm_module_new and nvm_deserialize both leave the
      constants there and nvm_serialize never reads them.
    - malloc/realloc failure paths are not modelled.
@@ -139,10 +141,13 @@ Definition stamp (m : module) : module :=
 
 (* ---------------------------------------------------------------- deserialize *)
 Inductive load_result := Loaded (m : module) | Refused | Crash | OutOfFuel.
-Inductive pres (A : Type) := POk (a : A) | PCrash | PFuel.
-Arguments POk {A} a. Arguments PCrash {A}. Arguments PFuel {A}.
+(* result of one entry loop: POk = every entry read and the section used up; PBad = `malformed` (an entry overruns the
+   section, or bytes are left over after the last entry): the file is refused *)
+Inductive pres (A : Type) := POk (a : A) | PBad | PCrash | PFuel.
+Arguments POk {A} a. Arguments PBad {A}. Arguments PCrash {A}. Arguments PFuel {A}.
 
-(* `end_ <= limit` evaluated in uint32_t: NoFit = the C sees it does not fit; Wrapped = the C thinks it fits but it does not *)
+(* `end_ <= limit` evaluated in uint32_t (the loop heads `pos + K <= sec_size` still add in uint32_t):
+   NoFit = the C sees it does not fit; Wrapped = the C thinks it fits but it does not *)
 Inductive fit := Fits | NoFit | Wrapped.
 Definition fits (end_ limit : N) : fit :=
   if limit <? u32 end_ then NoFit else if limit <? end_ then Wrapped else Fits.
@@ -153,25 +158,25 @@ Definition rd16 := rd 2.
 Definition rd8 := rd 1.
 Definition slice (data : list byte) (off n : N) : list byte := firstn (N.to_nat n) (skipn (N.to_nat off) data).
 
+(* after a loop: `if (pos != sec_size) malformed = true;` *)
+Definition loop_end {A} (pos sz : N) (acc : A) : pres A := if pos =? sz then POk acc else PBad.
+
 Fixpoint parse_strings (fuel : nat) (sec : list byte) (sz pos : N) (ss : list (list byte)) : pres (list (list byte)) :=
   match fuel with O => PFuel | S f =>
     match fits (pos + 4) sz with
-    | NoFit => POk ss | Wrapped => PCrash
+    | NoFit => loop_end pos sz ss | Wrapped => PCrash
     | Fits =>
         let slen := rd32 sec pos in
         let pos1 := u32 (pos + 4) in
-        match fits (pos1 + slen) sz with
-        | NoFit => POk ss            (* break *)
-        | Wrapped => PCrash
-        | Fits => parse_strings f sec sz (u32 (pos1 + slen)) (add_string ss (slice sec pos1 slen))
-        end
+        if sz - pos1 <? slen then PBad      (* if (slen > sec_size - pos) { malformed = true; break; } -- no wrap-around *)
+        else parse_strings f sec sz (u32 (pos1 + slen)) (add_string ss (slice sec pos1 slen))
     end
   end.
 
 Fixpoint parse_functions (fuel : nat) (sec : list byte) (sz pos : N) (fs : list fn_entry) : pres (list fn_entry) :=
   match fuel with O => PFuel | S f =>
     match fits (pos + 18) sz with
-    | NoFit => POk fs | Wrapped => PCrash
+    | NoFit => loop_end pos sz fs | Wrapped => PCrash
     | Fits =>
         let e := mkFn (rd32 sec pos) (rd16 sec (pos + 4)) (rd32 sec (pos + 6)) (rd32 sec (pos + 10))
                       (rd16 sec (pos + 14)) (rd16 sec (pos + 16)) in
@@ -182,7 +187,7 @@ Fixpoint parse_functions (fuel : nat) (sec : list byte) (sz pos : N) (fs : list 
 Fixpoint parse_debug (fuel : nat) (sec : list byte) (sz pos : N) (ds : list (N * N)) : pres (list (N * N)) :=
   match fuel with O => PFuel | S f =>
     match fits (pos + 8) sz with
-    | NoFit => POk ds | Wrapped => PCrash
+    | NoFit => loop_end pos sz ds | Wrapped => PCrash
     | Fits => parse_debug f sec sz (u32 (pos + 8)) (ds ++ [(rd32 sec pos, rd32 sec (pos + 4))])
     end
   end.
@@ -190,24 +195,21 @@ Fixpoint parse_debug (fuel : nat) (sec : list byte) (sz pos : N) (ds : list (N *
 Fixpoint parse_imports (fuel : nat) (sec : list byte) (sz pos : N) (is : list imp_entry) : pres (list imp_entry) :=
   match fuel with O => PFuel | S f =>
     match fits (pos + 11) sz with
-    | NoFit => POk is | Wrapped => PCrash
+    | NoFit => loop_end pos sz is | Wrapped => PCrash
     | Fits =>
         let md := rd32 sec pos in let fnn := rd32 sec (pos + 4) in
         let pc := rd16 sec (pos + 8) in let rt := rd8 sec (pos + 10) in
         let pos1 := u32 (pos + 11) in
         match fits (pos1 + pc) sz with
-        | NoFit => POk is            (* break: the half-read entry is not counted *)
+        | NoFit => PBad              (* if (pos + param_count > sec_size) { malformed = true; break; } *)
         | Wrapped => PCrash
         | Fits => parse_imports f sec sz (u32 (pos1 + pc)) (is ++ [mkImp md fnn pc rt (slice sec pos1 pc)])
         end
     end
   end.
 
-Definition known_type (ty : N) : bool :=
-  (ty =? SEC_STRINGS) || (ty =? SEC_CODE) || (ty =? SEC_FUNCTIONS) || (ty =? SEC_DEBUG) || (ty =? SEC_IMPORTS).
-
 Definition pmap {A B} (f : A -> B) (r : pres A) : pres B :=
-  match r with POk a => POk (f a) | PCrash => PCrash | PFuel => PFuel end.
+  match r with POk a => POk (f a) | PBad => PBad | PCrash => PCrash | PFuel => PFuel end.
 
 (* the switch in the section loop *)
 Definition apply_section (ty : N) (sec : list byte) (sz : N) (m : module) : pres module :=
@@ -223,16 +225,14 @@ Fixpoint load_sections (n : nat) (i : N) (data : list byte) (size : N) (m : modu
   match n with O => Loaded m | S n' =>
     let d := 32 + i * 12 in
     let ty := rd32 data d in let off := rd32 data (d + 4) in let sz := rd32 data (d + 8) in
-    match fits (off + sz) size with
-    | NoFit => Refused                         (* nvm_module_free(mod); return NULL; *)
-    | Wrapped => if known_type ty then Crash else load_sections n' (i + 1) data size (add_sec m (ty, off, sz))
-    | Fits =>
-        match apply_section ty (slice data off sz) sz (add_sec m (ty, off, sz)) with
-        | POk m2 => load_sections n' (i + 1) data size m2
-        | PCrash => Crash
-        | PFuel => OutOfFuel
-        end
-    end
+    if size <? off + sz then Refused           (* (uint64_t)sec_offset + sec_size > size: free, return NULL -- no wrap-around *)
+    else
+      match apply_section ty (slice data off sz) sz (add_sec m (ty, off, sz)) with
+      | POk m2 => load_sections n' (i + 1) data size m2
+      | PBad => Refused                        (* if (malformed) { nvm_module_free(mod); return NULL; } *)
+      | PCrash => Crash
+      | PFuel => OutOfFuel
+      end
   end.
 
 Definition header_of (data : list byte) : header :=
